@@ -3,7 +3,8 @@
 The three readers share one design: `_read()` parses ONE frame from the text handle and counts it in `_frame_index`; `read`, `seek`,
 `tell` are loops around it.  The contracts are modular:
 
-  `_read` (callee contract, used at every call site below; the parsers themselves are covered by the C01/C02 bounded layer):
+  `_read` (callee contract, used at every call site below; proved for the xyz and lammpstrj parsers at the end of this module on a line stream with
+  symbolic numbers -- complete frame, end of file, truncated frame; the fixed-width mdcrd parser is covered by the bounded layer only):
         with the handle's cursor at frame p of a file of N frames:  p < N  -> returns frame p, cursor and `_frame_index` become p+1;
         p == N -> raises the module's `_EOF` and changes nothing.
   Representation invariant of an open reading handle:  `_frame_index` == cursor of `_fh`,  0 <= cursor <= N.
@@ -369,3 +370,153 @@ def xyz_len(ctx, case):
 
 
 contract("C18", "mdtraj/formats/xyzfile.py", "XYZTrajectoryFile.__len__", cases=[(n, a) for n in (1, 2, 3) for a in (1, 2)], replay="cursor:text", covers=["returned"])(xyz_len)
+
+
+# ---- the one-frame parser of the xyz reader against the callee contract used above -------------------------------------------------------
+class _NumLine:
+    """an atom line `type x y z` whose three numbers are symbolic reals (text -> float conversion is the identity on them)"""
+
+    def __init__(self, typ, vals):
+        self.typ, self.vals = typ, vals
+
+    def split(self):
+        return [self.typ] + list(self.vals)
+
+    def __eq__(self, o):
+        return False
+
+    __hash__ = object.__hash__
+
+
+def xyz_parse_frame(ctx, case):
+    """XYZTrajectoryFile._read on a line stream (2 atoms per frame, symbolic numbers):
+         complete frame   returns the n_atoms x 3 numbers of the atom lines in order, consumes exactly count + comment + n_atoms lines,
+                          position (_frame_index) + 1;
+         end of file      raises _EOF, position unchanged, nothing consumed beyond the end;
+         truncated frame  (file ends inside a frame) raises _EOF, position unchanged."""
+    from mdvc import npobj
+    from mdvc.core import rterm
+
+    c03.install(ctx)
+    im = ctx.interp.import_models
+    im["numpy"] = npobj.NumpyO()
+    im["itertools"] = Namespace("itertools", count=lambda *a: None)
+    mod = ctx.module("mdtraj/formats/xyzfile.py")
+    cls = mod.globals["XYZTrajectoryFile"]
+    A = 2
+    V = [[ctx.real(f"v{a}_{k}") for k in range(3)] for a in range(A)]
+    frame = [f"{A}\n", "comment line\n"] + [_NumLine("C", V[a]) for a in range(A)]
+    nxt = [f"{A}\n", "next frame\n"]
+    lines = {"complete": frame + nxt, "end-of-file": [], "truncated": frame[:3]}[case]
+
+    class LineFH:
+        def __init__(self):
+            self.i = 0
+
+        def readline(self):
+            self.i += 1
+            return lines[self.i - 1] if self.i <= len(lines) else ""
+    fh = LineFH()
+    p = ctx.int("position")
+    ctx.assume(p >= 0)
+    h = Obj(cls)
+    h.fields.update(_mode="r", _is_open=True, _frame_index=p, _fh=fh, _filename="/data/f.xyz", _line_counter=0, _n_frames=None)
+    out = ctx.call_method(h, "_read")
+    if case == "complete":
+        ctx.ensure("no-exception", not out.raised)
+        if out.raised:
+            return
+        ctx.cover("parsed")
+        r = out.value
+        ctx.ensure("shape=(n_atoms,3)", tuple(r.shape) == (A, 3))
+        for a in range(A):
+            for k in range(3):
+                ctx.ensure(f"xyz[{a}][{k}]=number-{k}-of-atom-line-{a}", rterm(r[a][k]) == V[a][k].t)
+        ctx.ensure("consumes-exactly-count+comment+n_atoms-lines(the-next-frame-is-untouched)", fh.i == A + 2)
+        ctx.ensure("position-advances-by-one", term(h.fields["_frame_index"]) == p.t + 1)
+    else:
+        ctx.cover("eof")
+        ctx.ensure("raises-the-module's-_EOF", out.raised and out.exc.name == "_EOF")
+        ctx.ensure("position-unchanged", term(h.fields["_frame_index"]) == p.t)
+
+
+contract("C18", "mdtraj/formats/xyzfile.py", "XYZTrajectoryFile._read", cases=["complete", "end-of-file", "truncated"], replay="cursor:text", covers=[])(xyz_parse_frame)
+contract("C02", "mdtraj/formats/xyzfile.py", "XYZTrajectoryFile._read", cases=["complete", "end-of-file", "truncated"], replay="reader", covers=[])(xyz_parse_frame)
+
+
+class _Tokens:
+    """a text line given by its whitespace-separated tokens (strings, or symbolic reals for numbers)"""
+
+    def __init__(self, toks):
+        self.toks = list(toks)
+
+    def split(self):
+        return list(self.toks)
+
+    def __eq__(self, o):
+        return False
+
+    __hash__ = object.__hash__
+
+
+def lammps_parse_frame(ctx, case):
+    """LAMMPSTrajectoryFile._read on a line stream (orthogonal box, 2 atoms whose lines come in REVERSE id order, symbolic numbers):
+         complete frame   coordinates are stored by atom id (row id-1 = the x y z of the line with that id), cell lengths = hi - lo per axis, angles 90,
+                          exactly 9 + n_atoms lines consumed, position + 1;    end of file  raises _EOF, position unchanged."""
+    from mdvc import npobj
+    from mdvc.core import rterm
+
+    c03.install(ctx)
+    im = ctx.interp.import_models
+    im["numpy"] = npobj.NumpyO()
+    im["itertools"] = Namespace("itertools", count=lambda *a: None)
+    mod = ctx.module("mdtraj/formats/lammpstrj.py")
+    cls = mod.globals["LAMMPSTrajectoryFile"]
+    A = 2
+    V = {i: [ctx.real(f"v{i}_{k}") for k in range(3)] for i in (1, 2)}
+    LO, HI = [ctx.real(f"lo{k}") for k in range(3)], [ctx.real(f"hi{k}") for k in range(3)]
+    frame = ["ITEM: TIMESTEP\n", "0\n", "ITEM: NUMBER OF ATOMS\n", f"{A}\n", "ITEM: BOX BOUNDS pp pp pp\n"] + [_Tokens([LO[k], HI[k]]) for k in range(3)] + \
+            ["ITEM: ATOMS id type xu yu zu\n", _Tokens(["2", "1"] + V[2]), _Tokens(["1", "1"] + V[1])]
+    lines = frame + ["ITEM: TIMESTEP\n"] if case == "complete" else []
+
+    class LineFH:
+        def __init__(self):
+            self.i = 0
+
+        def readline(self):
+            self.i += 1
+            return lines[self.i - 1] if self.i <= len(lines) else ""
+    fh = LineFH()
+    first = case != "complete" or ctx.ex.branch(z3.Bool("this-is-the-first-frame-read-by-the-handle"))
+    p = SInt(z3.IntVal(0)) if first else ctx.int("position")
+    if not first:
+        ctx.assume(p >= 1)
+    h = Obj(cls)
+    h.fields.update(_mode="r", _is_open=True, _frame_index=p, _fh=fh, _filename="/data/f.lammpstrj", _line_counter=0)
+    if not first:
+        # the column layout detected at the first frame is kept by the handle
+        h.fields.update(_atom_index_column=0, _atom_type_column=1, _xyz_columns=[2, 3, 4])
+    out = ctx.call_method(h, "_read")
+    if case == "complete":
+        ctx.ensure("no-exception", not out.raised)
+        if out.raised:
+            return
+        ctx.cover("parsed")
+        xyz, lengths, angles = out.value
+        for i in (1, 2):
+            for k in range(3):
+                ctx.ensure(f"xyz[id{i}-1][{k}]=number-{k}-of-the-line-with-atom-id-{i}", rterm(xyz[i - 1][k]) == V[i][k].t)
+        for k in range(3):
+            ctx.ensure(f"cell-length[{k}]=hi-lo", rterm(list(lengths)[k]) == HI[k].t - LO[k].t)
+            a = list(angles)[k]
+            ctx.ensure(f"cell-angle[{k}]=90", (rterm(a) == 90) if core.is_sym(a) else (float(a) == 90.0))
+        ctx.ensure("consumes-exactly-9+n_atoms-lines(the-next-frame-is-untouched)", fh.i == 9 + A)
+        ctx.ensure("position-advances-by-one", term(h.fields["_frame_index"]) == term(p) + 1)
+    else:
+        ctx.cover("eof")
+        ctx.ensure("raises-the-module's-_EOF", out.raised and out.exc.name == "_EOF")
+        ctx.ensure("position-unchanged", term(h.fields["_frame_index"]) == term(p))
+
+
+contract("C18", "mdtraj/formats/lammpstrj.py", "LAMMPSTrajectoryFile._read", cases=["complete", "end-of-file"], replay="cursor:text", covers=[])(lammps_parse_frame)
+contract("C02", "mdtraj/formats/lammpstrj.py", "LAMMPSTrajectoryFile._read", cases=["complete", "end-of-file"], replay="reader", covers=[])(lammps_parse_frame)
